@@ -59,7 +59,8 @@ extern "C" ssize_t __wrap_readlink(const char* path, char* buf, size_t bufsiz)
 namespace
 {
     // A path of exactly `len` bytes (2 <= len <= PATH_MAX-1): '/'-separated
-    // components of 1..255 bytes; bytes from ASCII, space, UTF-8, 0x80..0xFF;
+    // components of 1..255 bytes; bytes from ASCII letters, digits, space, punctuation incl. backslash,
+    // control characters, UTF-8, 0x80..0xFF;
     // never NUL, never '/' inside a component.  Pure function of its arguments.
     std::string make_path(size_t len, uint64_t shape, uint64_t depth_hint, std::vector<std::string>& comps)
     {
@@ -76,17 +77,23 @@ namespace
             if (cl > remaining) cl = remaining;
             if (remaining - cl == 1) { if (cl < 255) ++cl; else --cl; }
             std::string comp;
-            unsigned style = static_cast<unsigned>(r.below(5));
+            // styles: 0 lower case, 1 upper case and spaces, 2 UTF-8, 3 raw high bytes, 4 punctuation and control
+            // characters (everything a file name may hold except NUL and '/': backslash, quotes, ':', '%', '.', newline, DEL ...),
+            // 5 a mixture of all of them
+            unsigned style = static_cast<unsigned>(r.below(6));
+            static const char punct[] = "\\\\\"'`:;%~.$&*?!#()[]{}<>|=+,-_@^\t\n\r\x01\x1b\x7f";
             while (comp.size() < cl)
             {
                 size_t room = cl - comp.size();
-                unsigned pick = style == 4 ? static_cast<unsigned>(r.below(4)) : style;
+                unsigned pick = style == 5 ? static_cast<unsigned>(r.below(5)) : style;
                 if (pick == 0) comp.push_back(static_cast<char>('a' + r.below(26)));
                 else if (pick == 1) comp.push_back(r.chance(1, 4) ? ' ' : static_cast<char>('A' + r.below(26)));
                 else if (pick == 2 && room >= 2) { comp.push_back(static_cast<char>(0xC3)); comp.push_back(static_cast<char>(0x80 + r.below(0x40))); }
                 else if (pick == 3) comp.push_back(static_cast<char>(0x80 + r.below(0x80)));
+                else if (pick == 4) comp.push_back(punct[r.below(sizeof(punct) - 1)]);
                 else comp.push_back(static_cast<char>('0' + r.below(10)));
             }
+            if (comp == "." || comp == "..") comp[0] = '_';      // a canonical path has no such component
             out += comp;
             comps.push_back(comp);
             remaining -= cl;
@@ -105,10 +112,14 @@ namespace
     // leave seeded garbage where the callee's frame is going to be
     __attribute__((noinline)) void dirty_stack(uint64_t seed)
     {
-        volatile unsigned char junk[12288];
-        Rng r(seed);
-        for (size_t i = 0; i < sizeof(junk); ++i) junk[i] = static_cast<unsigned char>(r.byte() | 1);
-        (void)junk[sizeof(junk) - 1];
+        volatile uint64_t junk[12288 / 8];
+        uint64_t w = seed | 0x0101010101010101ULL;
+        for (size_t i = 0; i < sizeof(junk) / sizeof(junk[0]); ++i)
+        {
+            w = (w * 6364136223846793005ULL + 1442695040888963407ULL) | 0x0101010101010101ULL;   // never a NUL byte
+            junk[i] = w;
+        }
+        (void)junk[sizeof(junk) / sizeof(junk[0]) - 1];
     }
 
     const char* len_class(size_t len)
